@@ -240,6 +240,7 @@ fn one_case_l(rng: &mut Rng, sink: &mut Sink) {
             sink.line(&op, &format!("k={} scid={} frames={}", kk, scid_name, frames_str(&fs)));
         } else if c < 25 {
             let Some(local) = conns[k].local.clone() else { continue };
+            if conns[k].limit.is_some() && !rng.chance(1, 12) { continue; } // a second set_limit is API misuse (debug_assert): rare
             let n = match rng.below(12) { 0 => 0, 1 => 1, 2 | 3 => 2, 4 | 5 => 3, 6 | 7 => 4, 8 => rng.range(5, 9), 9 => rng.range(9, 40), 10 => conns[k].next_seq, _ => conns[k].next_seq + 1 };
             let op = format!("setlimit {} {}", k, n);
             sink.pending(&op);
@@ -561,7 +562,7 @@ impl RCase {
             }
             Err(m) => {
                 self.dead = true;
-                let site = if m.contains("before the first initial") { "initial:not-first" } else if m.contains("pending_cells") { "initial:cell-not-pending" } else { "?" };
+                let site = if m.contains("first_initial") { "initial:not-first" } else if m.contains("pending_cells") { "initial:cell-not-pending" } else { "?" };
                 sink.line(&op, &format!("PANIC {}", site));
                 if legit { sink.monitor_fail("panic:remote:initial", &format!("apply_initial_dcid panicked: {}", m)); }
             }
@@ -610,7 +611,7 @@ impl RCase {
             }
             Err(m) => {
                 self.dead = true;
-                let site = if m.contains("end >= self.offset") || m.contains("drain") { "drain_to" } else { "?" };
+                let site = if m.contains("self.offset") { "drain_to" } else { "?" };
                 sink.line(&op, &format!("PANIC {}", site));
                 if parseable { sink.monitor_fail("panic:remote:newcid", &format!("recv NEW_CONNECTION_ID seq={} rpt={} panicked: {}", seq, rpt, m)); }
             }
